@@ -108,6 +108,7 @@ package pcache
 //@   requires pcOK(pc) && ctx != nil && !held(pc.writeLock)
 //@   modifies mapof(pc.write), pc.read, objects(cacheInfo)
 //@   at call Fetch#1: assert !old(has(pc.write, pid)) || count("call:Errorw") >= 1
+//@   at call As#1: after assume result ==> apiErr != nil
 //@   at call needMerge#1: assume arg0 < 2147483648 && arg1 < 2147483648
 //@   ensures-local count("atomic.store:read") <= 1
 //@   at call Store#1: assert isfresh(arg1)
